@@ -1,12 +1,16 @@
 # C02 — lazily served files and metadata equal the source tar under any access history
 PROPS["C02"] = dict(
     props_file="Properties/C02.v",
-    harnesses=[dict(cmd="serve", mod="root", model="Model.Serve", quick=100, thorough=3000, shard=10, coq_jobs=12,
+    harnesses=[dict(cmd="serve", mod="root", model="Model.Serve", quick=70, thorough=2000, shard=7, coq_jobs=12,
                     preamble="From SV Require Import Model.ChunkRead Model.TarView.",
                     require=["kind.serve", "kind.clean", "kind.attr", "cache.mem", "cache.dir1", "cache.dirdirect", "cache.dirasync",
                              "build.gzip", "build.zstd", "build.min_chunk_size", "build.prioritized", "build.workers>1",
                              "op.read", "op.prefetch", "op.evict", "op.evictall", "read.past_eof", "read.beyond_eof",
-                             "read.multichunk_file", "read.chunk.hit", "read.chunk.miss", "mates.shared", "result.open_failed", "op.par"])],
+                             "read.multichunk_file", "read.chunk.hit", "read.chunk.miss", "mates.shared", "result.open_failed", "op.par"]),
+               dict(cmd="servedb", mod="cmdmod", model="Model.Serve", quick=50, thorough=1500, shard=7, coq_jobs=12,
+                    preamble="From SV Require Import Model.ChunkRead Model.TarView.",
+                    require=["kind.serve", "cache.mem", "build.min_chunk_size", "op.read", "op.prefetch", "op.grow", "read.multichunk_file",
+                             "read.chunk.hit", "read.chunk.miss", "mates.shared"])],
     rule="random tars (reg/dir/symlink/hardlink chains/char/block/fifo; names with ./ / ../ // /./ x/zz/.. prefixes; implicit parents; explicit root; "
          "duplicates; empty and multi-chunk files with sizes around chunk boundaries; PAX xattrs; setuid/setgid/sticky) x estargz.Build options "
          "(chunk size 1..600, min-chunk-size, gzip/zstd, prioritized files, 1..4 workers) x chunk cache (memory, directory cache with 1-entry LRU, "
